@@ -213,7 +213,7 @@ def fix_multi_expected(sf, want):
                 # implicit placeholders generated for str args are replaced by the declared ones
                 keep = []
                 for r in want:
-                    if r["kind"] == "variable" and r["name"] in names and r["path"].endswith("proc:hosts") and set(r) <= {"path", "kind", "name", "role", "vartype"}:
+                    if r["kind"] == "variable" and r["name"] in names and r["path"].endswith("proc:hosts") and set(r) <= {"path", "kind", "name", "role", "vartype", "attribs", "shape"}:
                         continue
                     keep.append(r)
                 want = keep
@@ -293,7 +293,7 @@ _register_dynamic_typespecs()
 
 SPEC_KEYS = ["var", "emptytype", "fulltype", "generic-modproc", "generic-bodies", "operator", "assignment", "abstract", "explicit",
              "enum", "common", "namelist", "enum-expr", "namelist2"]
-PROC_KEYS = ["sub", "fn", "fn-result", "sub-internal", "fn-typed", "fn-result-attrs", "fn-name-attrs"]
+PROC_KEYS = ["sub", "fn", "fn-result", "sub-internal", "fn-typed", "fn-result-attrs", "fn-name-attrs", "fn-typed-attrs"]
 
 
 def proc_alphabet(i):
@@ -309,6 +309,9 @@ def proc_alphabet(i):
                                      internal=[Proc("subroutine", f"in{s}a", args=[Var("q", "integer")]),
                                                Proc("function", f"in{s}b", args=[], rettype="integer", body=[f"in{s}b = 1"])],
                                      body=[f"w{s} = 1.0"]),
+        # type in the prefix, attributes of the result in statements of their own, next to an implicitly typed dummy argument
+        "fn-typed-attrs": lambda: Proc("function", f"pa{s}", args=["k", Var("a", "integer")], rettype="real", result_attrs=["dimension", "target"],
+                                       body=[f"pa{s} = a + k"]),
         "fn-typed": lambda: Proc("function", f"pt{s}", args=[Var("a", "integer"), Var("b", "integer", ["optional"])], rettype="realdp",
                                  prefixes=["elemental"], body=[f"pt{s} = a"]),
     }
